@@ -145,6 +145,11 @@ func c01Worker(e *Env) *res.Result {
 			case oc.Rejected:
 				rejected++
 				r.Label("outcome:rejected")
+				if cfg.Client {
+					r.ListAdd("rejected_client", row.ID)
+				} else {
+					r.ListAdd("rejected_noclient", row.ID)
+				}
 			case len(oc.Problems) == 0:
 				r.Label("outcome:compiles")
 				if row.Doc != nil && specHasOps(row.Doc) {
@@ -174,10 +179,11 @@ func c01Worker(e *Env) *res.Result {
 	var lastFail *res.Failure
 	prop := func(t *rapid.T) {
 		c := specgen.NewCtx(t, disabled)
+		cfg := drawConfig(t)
+		c.NeedClient = cfg.Client
 		bf := rapid.SampledFrom(specgen.BaseForms()).Draw(t, "baseform")
 		d := c.Composition(specgen.DefaultCompOpts())
 		d.Servers = bf.Servers
-		cfg := drawConfig(t)
 		if bf.Flag != "" && cfg.BasePath == "" {
 			cfg.BasePath = bf.Flag
 		}
@@ -221,8 +227,10 @@ func c01Worker(e *Env) *res.Result {
 	for k, v := range excluded {
 		r.LabelN("excluded_by_construction:"+k, int64(v))
 	}
-	r.Extra["rows_total"] = float64(len(rows))
 	r.Extra["rejected"] = float64(rejected)
+	if e.Shard == 0 {
+		r.Extra["rows_total"] = float64(len(rows))
+	}
 	if e.Shard == 0 {
 		r.Extra["template_coverage"] = templateCoverage()
 	}
@@ -281,7 +289,12 @@ func cliBinary(e *Env) (string, error) {
 	if _, err := os.Stat(bin); err == nil {
 		return bin, nil
 	}
-	cmd := exec.Command("go", "build", "-tags", "verif", "-o", bin, "github.com/vkd/goag/cmd/goag")
+	args := []string{"build", "-tags", "verif", "-o", bin}
+	if mf := os.Getenv("VERIF_MODFILE"); mf != "" {
+		args = append(args, "-modfile="+mf)
+	}
+	args = append(args, "github.com/vkd/goag/cmd/goag")
+	cmd := exec.Command("go", args...)
 	cmd.Dir = verifDir
 	out, err := cmd.CombinedOutput()
 	if err != nil {
